@@ -727,6 +727,13 @@ mod huffman {
                         }
                     }
 
+                    if self.pending_bits == 0 && std::ptr::eq(map, self.decode) {
+                        // All bits are consumed and we are not in the middle of a symbol: done.
+                        // The root map must not be consulted here, its first entry may lead to a
+                        // further map (all codes longer than a byte) or be void (no symbols).
+                        return None;
+                    }
+
                     if self.pending_bits < 8 {
                         // We have run out of bytes. We may yet be able to decode the remaining bits.
                         // Promote the valid bits and consult the map; if it only consumes valid bits,
